@@ -6,6 +6,8 @@ almost never intended in this code base; the few instances on the reviewed tree 
   engine-in-loop      a random engine constructed (seeded) inside a loop: every iteration restarts the same sequence
   use-after-move      a parameter / local read in a later statement of the block in which it was handed to std::move / std::forward
   unsigned-bound      `x - c` over an unsigned x as a loop bound without a guard that x >= c (wraps to a huge bound at x < c)
+  parallel-copy       the statements of one block that copy an element of several parallel arrays into position d read different
+                      source positions
 Each lint carries a positive control that must be recognised on every run."""
 import json
 import os
@@ -127,6 +129,44 @@ def unsigned_bound_nodes(fn):
     return out
 
 
+def _idx_of(e):
+    e = strip_all(e) if isinstance(e, dict) else {}
+    if e.get("k") == "Index":
+        return txt(e["b"]), txt(e["i"])
+    if e.get("k") == "OpCall" and e.get("op") == "[]" and len(e.get("args", [])) == 2:
+        return txt(e["args"][0]), txt(e["args"][1])
+    if e.get("k") == "Un" and e.get("op") == "&":
+        return _idx_of(e["e"])
+    if e.get("k") in ("Call", "Construct") and len(e.get("args", [])) == 1:
+        return _idx_of(e["args"][0])
+    return None
+
+
+def parallel_copy_nodes(fn):
+    """blocks that copy one logical element of several parallel arrays (X[d] = A[s]; Y[d] = B[s]; new (&Z[d]) T(C[s])): all copies
+    into position d read the same source position"""
+    out = []
+    for b in _blocks(fn.get("body"), []):
+        groups = {}
+        for s in stmts_of(b):
+            if s.get("k") != "Expr":
+                continue
+            e = strip_all(s["e"])
+            d = si = None
+            if e.get("k") == "Assign" and e.get("op") == "=":
+                d, si = _idx_of(e["l"]), _idx_of(e["r"])
+            elif e.get("k") == "New" and e.get("placement") is not None:
+                d = _idx_of(e["placement"])
+                a = e.get("init") if isinstance(e.get("init"), dict) else None
+                si = _idx_of(a) if a is not None else None
+            if d and si and d[0] != si[0]:
+                groups.setdefault(d[1], []).append((s, si[1]))
+        for di, items in groups.items():
+            if len(items) >= 2 and len(set(x[1] for x in items)) > 1:
+                out.append((di, items))
+    return out
+
+
 def hazards(facts, fams=None):
     fns = functions_by(facts)
     exc = _exc()
@@ -149,6 +189,8 @@ def hazards(facts, fams=None):
             found.append(("use-after-move", "%s:%s" % (base, m.get("n")), s2.get("loc"), "`%s` is read after it was handed to std::move / std::forward in an earlier statement of the same block: for an rvalue argument the value is gone" % m.get("n")))
         for n, x in unsigned_bound_nodes(fn):
             found.append(("unsigned-bound", base, n.get("loc"), "loop bound `%s` subtracts from an unsigned value with no guard that it is large enough: at 0 the bound wraps to a huge number and the loop runs off the data" % txt(n["c"])))
+        for di, items in parallel_copy_nodes(fn):
+            found.append(("parallel-copy", base, items[0][0].get("loc"), "the element copied into position `%s` is read from different source positions (%s) in the statements of one block: parallel arrays (items / weights / marks) get out of step" % (di, ", ".join(sorted(set(x[1] for x in items))))))
         cnt = {}
         for rule, key, loc, detail in found:
             k0 = "%s:%s" % (rule, key)
@@ -159,7 +201,7 @@ def hazards(facts, fams=None):
                 out.append(ob("lint.hazard", k, loc or fn["pat"], "info", "reviewed instance: %s" % exc[k], fn["qname"]))
             else:
                 out.append(ob("lint.hazard", k, loc or fn["pat"], "violated", detail, fn["qname"]))
-    out.append(ob("lint.hazard", "all:functions-scanned", "", "discharged", "%d functions scanned for 5 hazard patterns" % scanned, ""))
+    out.append(ob("lint.hazard", "all:functions-scanned", "", "discharged", "%d functions scanned for 6 hazard patterns" % scanned, ""))
     # positive controls
     ctl_fn = {"body": {"k": "Block", "s": [
         {"k": "Expr", "e": {"k": "Call", "cname": "f", "callee": "datasketches::f", "args": [{"k": "Cast", "impl": True, "ck": "IntegralCast", "from": "unsigned long", "t": "unsigned int", "e": {"k": "Ref", "n": "seed", "d": 1, "dk": "param", "t": "unsigned long"}}]}},
